@@ -35,8 +35,8 @@ Q_KINDS = ["exit1", "stderr_error", "garbage"]
 
 def budget(tier):
     if tier == "thorough":
-        return {"cases": 6000, "deadline_s": 900, "case_timeout_s": 180, "floors": {"faults_injected": 5500, "second_runs_checked": 5000, "kill_points": 1500, "write_kills": 600}}
-    return {"cases": 480, "deadline_s": 110, "case_timeout_s": 120, "floors": {"faults_injected": 430, "second_runs_checked": 380, "kill_points": 100, "write_kills": 40}}
+        return {"cases": 6720, "deadline_s": 900, "case_timeout_s": 180, "floors": {"faults_injected": 5500, "second_runs_checked": 5000, "kill_points": 1500, "write_kills": 600}}
+    return {"cases": 560, "deadline_s": 110, "case_timeout_s": 120, "floors": {"faults_injected": 430, "second_runs_checked": 380, "kill_points": 100, "write_kills": 40}}
 
 
 def fault_list(sched, n, pre):
@@ -54,22 +54,31 @@ def fault_list(sched, n, pre):
     for suffix in ("-backend-tracked.json", "spec-hashes.json"):
         for after in (0, "half", "all"):
             fl.append({"where": "write", "suffix": suffix, "after": after})
+    # kill right before the n-th mutating file-system operation on a state file (open/rename/remove)
+    for n_ in (1, 2, 3, 4):
+        fl.append({"where": "fsevent", "contains": ["backend-tracked"], "nth": n_})
+    for n_ in (1, 2):
+        fl.append({"where": "fsevent", "contains": ["spec-hashes"], "nth": n_})
     return fl
 
 
 def gen_case(rng, idx, tier):
-    wf_rng = random.Random(idx // 48 * 7919 + 13)
-    sched = ["slurm", "slurm", "sge", "lsf"][(idx // 48) % 4]
+    wf_rng = random.Random(idx // 56 * 7919 + 13)
+    sched = ["slurm", "slurm", "sge", "lsf", "slurm-noacct"][(idx // 56) % 5]
     n = wf_rng.randint(3, 7)
     dag = gen.gen_dag(wf_rng, n_targets=n, p_noout=0.0, shapes=wf_rng.choice(["chain", "diamond", "fan", "random"]))
     for t in dag["targets"]:
         t["spec"] = "echo %s\n" % t["name"]
-    pre = wf_rng.random() < 0.4
+    pre = wf_rng.random() < 0.55
     hashing = wf_rng.random() < 0.5
-    fl = fault_list(sched, n - (1 if pre else 0), pre)
+    noacct = sched == "slurm-noacct"
+    sched = "slurm" if noacct else sched
+    fl = fault_list(sched, n - (1 if pre else 0), pre and not noacct)
+    if noacct:
+        fl = [f for f in fl if f.get("cmd") != "sacct"]
     # systematic walk through the fault list, random beyond it
-    f = fl[(idx % 48) % len(fl)] if (idx % 48) < len(fl) else rng.choice(fl)
-    return {"sched": sched, "dag": dag, "pre": pre, "hashing": hashing, "fault": f}
+    f = fl[(idx % 56) % len(fl)] if (idx % 56) < len(fl) else rng.choice(fl)
+    return {"sched": sched, "dag": dag, "pre": pre, "hashing": hashing, "fault": f, "noacct": noacct}
 
 
 def truth_tracked(sim, sched):
@@ -92,6 +101,8 @@ def run_case(case):
         cfg = {"backend": sched}
         if case["hashing"]:
             cfg["use_spec_hashes"] = True
+        if case.get("noacct"):
+            cfg["backend.slurm.accounting_enabled"] = False
         proj.write_config(cfg)
         for s in case["dag"]["sources"]:
             proj.set_file(s, 0)
@@ -114,17 +125,19 @@ def run_case(case):
             sim.set_faults([{"cmd": SUBMIT_CMD[sched], "nth": f["k"], "kind": f["kind"]}])
         elif f["where"] == "query":
             sim.set_faults([{"cmd": f["cmd"], "nth": f["k"], "kind": f["kind"]}])
+        elif f["where"] == "fsevent":
+            fp = {"kind": "kill_at_fs_event", "contains": f["contains"], "nth": f["nth"]}
         else:
             fp = {"kind": "kill_in_write", "suffix": f["suffix"], "nth": 1, "after": f["after"], "half_len": 9}
         r1 = cli.gwf(proj.root, ["run"], env, failpoint=fp)
         sim.set_faults([])
         res.mon("faults_injected")
         killed = (r1.rc is not None and r1.rc < 0) or r1.rc == 137
-        if f["where"] == "write":
+        if f["where"] in ("write", "fsevent"):
             res.mon("write_kills")
-            if f["suffix"] == "spec-hashes.json" and not case["hashing"]:
+            if f.get("suffix") == "spec-hashes.json" and not case["hashing"]:
                 killed = False
-        if f["kind"] in ("kill_parent_after", "kill_parent_before") if f["where"] == "submit" else False:
+        if f.get("kind") in ("kill_parent_after", "kill_parent_before") if f["where"] == "submit" else False:
             res.mon("kill_points")
         subs1 = scenario.submissions_view(sim, seq0)
         accepted_now = {s["name"]: s["id"] for s in subs1}
@@ -132,11 +145,17 @@ def run_case(case):
         interruption = "kill" if killed else ("error" if r1.rc != 0 else "none")
         ctx = {"sched": sched, "fault": f, "rc1": r1.rc, "interruption": interruption, "accepted_in_faulty_run": accepted_now, "accepted_before": accepted_before, "err1": r1.err[-400:]}
 
-        def mech(base):
-            # hard kill with at least one job accepted in that run: the ids of that run are lost (recorded finding)
-            if interruption == "kill" and accepted_now:
+        def mech(base, involved):
+            # hard kill: the ids accepted IN THAT RUN are lost (recorded finding).  Jobs accepted by earlier,
+            # completed invocations are not covered: forgetting those is a different defect.
+            if interruption == "kill" and accepted_now and set(involved) <= set(accepted_now):
                 return "ids-lost-on-hard-kill"
             return base
+
+        # the interrupted run itself must not submit a second job for a target whose earlier job is pending
+        dup1 = sorted(n for n in accepted_now if n in accepted_before)
+        if dup1:
+            res.violation("duplicate-in-interrupted-run", "the interrupted run submitted %s again although their earlier jobs %s are still pending" % (dup1, {n: accepted_before[n] for n in dup1}), **ctx)
 
         # spec hash recorded => accepted
         hashes = proj.state_files().get("spec-hashes.json", {})
@@ -172,18 +191,19 @@ def run_case(case):
         names2 = [s["name"] for s in subs2]
         dup = sorted(n for n in names2 if bview.get(n) in ("submitted", "running"))
         if dup:
-            res.violation(mech("duplicate-after-interruption"), "targets %s got a second job although their accepted job (%s) is still pending" % (dup, {n: truth[n] for n in dup}), tracked_file=tracked_file, **ctx)
+            res.violation(mech("duplicate-after-interruption", dup), "targets %s got a second job although their accepted job (%s) is still pending" % (dup, {n: truth[n] for n in dup}), tracked_file=tracked_file, **ctx)
         missing = sorted(set(want_submit) - set(names2))
         extra = sorted(set(names2) - set(want_submit) - set(dup))
         if missing or extra:
-            res.violation(mech("plan-after-interruption"), "second run submitted %s; expected %s" % (sorted(names2), sorted(want_submit)), tracked_file=tracked_file, **ctx)
+            res.violation(mech("plan-after-interruption", missing + extra), "second run submitted %s; expected %s" % (sorted(names2), sorted(want_submit)), tracked_file=tracked_file, **ctx)
         newid = {s["name"]: s["id"] for s in subs2}
         for s in subs2:
             if s["name"] not in want_prereq:
                 continue
             want_ids = {newid[d] if d in newid else truth.get(d) for d in want_prereq[s["name"]]}
             if set(s["prereq_ids"]) != want_ids:
-                res.violation(mech("prereq-after-interruption"), "%s submitted with prerequisites %s; the jobs accepted for its incomplete deps are %s" % (s["name"], s["prereq_ids"], sorted(map(str, want_ids))), tracked_file=tracked_file, **ctx)
+                involved = [d for d in want_prereq[s["name"]] if d not in newid]
+                res.violation(mech("prereq-after-interruption", involved), "%s submitted with prerequisites %s; the jobs accepted for its incomplete deps are %s" % (s["name"], s["prereq_ids"], sorted(map(str, want_ids))), tracked_file=tracked_file, **ctx)
         # signature
         if f["where"] == "submit":
             n = len(names) - (1 if case["pre"] else 0)
@@ -194,6 +214,9 @@ def run_case(case):
         elif f["where"] == "query":
             res.sig = (sched, f["cmd"], f["kind"], case["hashing"], case["pre"])
             res.nontrivial = case["pre"]
+        elif f["where"] == "fsevent":
+            res.sig = (sched, "fsevent", f["contains"][0], f["nth"], case["hashing"], case["pre"], killed)
+            res.nontrivial = True
         else:
             res.sig = (sched, "write", f["suffix"], str(f["after"]), case["hashing"], case["pre"])
             res.nontrivial = True
